@@ -296,6 +296,12 @@ func (r *Recorder) Finish() int {
 		}
 	}
 	sort.Strings(r.inconcl)
+	// every listed finding of the property is announced, also when this run's workload did not reproduce it
+	for _, f := range r.findings {
+		if r.known[f.ID] == 0 {
+			fmt.Printf("KNOWN-FINDING: property=%s %s: %s [not reproduced by this run's workload]\n", r.Property, f.ID, f.What)
+		}
+	}
 	unlisted := 0
 	for _, v := range r.viol {
 		if v.Known == "" {
